@@ -47,11 +47,13 @@ type LoopSpec struct {
 	Ordinal    int
 	Invariants []*Clause
 	Decreases  *Clause
+	Complete   []string // tags: the loop is left only through its header (every element of a range is visited)
 }
 
 type AtCall struct {
-	Callee string
-	Clause *Clause
+	Callee  string
+	Ordinal int // 0 = every site; k = only the k-th site in source order
+	Clause  *Clause
 }
 
 type Contract struct {
@@ -406,6 +408,19 @@ func (p *Program) parseContractFile(fname string, f *ast.File) error {
 				ls = &LoopSpec{Ordinal: n}
 				cur.Loops[n] = ls
 			}
+			if strings.HasPrefix(sub, "complete") {
+				// loop N complete{TAGS}
+				tg := strings.Trim(strings.TrimPrefix(sub, "complete"), "{} ")
+				for _, t := range strings.Split(tg, ",") {
+					if t = strings.TrimSpace(t); t != "" {
+						ls.Complete = append(ls.Complete, t)
+					}
+				}
+				if len(ls.Complete) == 0 {
+					ls.Complete = []string{"-"}
+				}
+				continue
+			}
 			for _, txt := range p.expandPred(sub) {
 				cl, err := mkClause(txt)
 				if err != nil {
@@ -424,14 +439,21 @@ func (p *Program) parseContractFile(fname string, f *ast.File) error {
 			}
 			callee := fields[2]
 			idx := strings.Index(l.text, callee) + len(callee)
+			ordinal := 0
+			if k := strings.LastIndex(callee, "@"); k > 0 {
+				if n, err := strconv.Atoi(callee[k+1:]); err == nil {
+					ordinal = n
+					callee = callee[:k]
+				}
+			}
 			cl, err := mkClause(strings.TrimSpace(l.text[idx:]))
 			if err != nil {
 				return err
 			}
 			if fields[1] == "store" {
-				cur.AtStores = append(cur.AtStores, &AtCall{Callee: callee, Clause: cl})
+				cur.AtStores = append(cur.AtStores, &AtCall{Callee: callee, Ordinal: ordinal, Clause: cl})
 			} else {
-				cur.AtCalls = append(cur.AtCalls, &AtCall{Callee: callee, Clause: cl})
+				cur.AtCalls = append(cur.AtCalls, &AtCall{Callee: callee, Ordinal: ordinal, Clause: cl})
 			}
 		default:
 			return bad("unknown clause keyword")
